@@ -119,6 +119,9 @@ def value_statuses(W, body, e, val, depth=0):
                 o |= r[1][v]
             return o
         return r[0]
+    if e[0] == "call" and e[1] in ("core::convert::Into::into", "core::convert::From::from") and e[3] and e[3][0][0] == "err":
+        # `Err(e.into())` in a match arm is what `?` does with the same error
+        return error_statuses(W, body, e[3][0], val)
     if e[0] == "phi":
         pv = W.prov(body)
         sel = val.get(("def", e[1]))
